@@ -246,7 +246,7 @@ func ProtectRW(object interface{}, mu *sync.Mutex) {}
 
 // TOMLBytesFail is TOMLBytes with a chosen decoder outcome: 0 the text decodes to v; 1 a syntax error (the
 // library reports a *toml.DecodeError); 2 an unknown field (*toml.StrictMissingError); 3 a value of the wrong kind
-// for a known field (a plain error that is neither).
+// for a known field (a plain error that is neither); 4 a date where a number is expected (the library panics).
 func TOMLBytesFail(v interface{}, kind int) []byte {
 	b := TOMLBytes(v)
 	switch kind {
@@ -272,6 +272,18 @@ func TOMLBytesFail(v interface{}, kind int) []byte {
 			}
 		}
 		return append([]byte("collision_mode = 0\n"), b...)
+	case 4:
+		// a date where a number is expected: go-toml v2.0.3 panics in reflect.Set instead of returning an error
+		lines := strings.Split(string(b), "\n")
+		for i, l := range lines {
+			if j := strings.Index(l, " = "); j > 0 && !strings.HasPrefix(strings.TrimSpace(l), "[") {
+				if _, err := strconv.Atoi(strings.TrimSpace(l[j+3:])); err == nil {
+					lines[i] = l[:j] + " = 1979-05-27"
+					return []byte(strings.Join(lines, "\n"))
+				}
+			}
+		}
+		return append([]byte("[defaults]\noctave = 1979-05-27\n"), b...)
 	}
 	return b
 }
